@@ -47,7 +47,8 @@ def run(ctx):
         method = rng.choice(["GET", "GET", "PUT", "DELETE", "HEAD"])
         key = gen_key(rng)[:80]
         path = "/my-bucket/" + key
-        extra = rng.choice([[], [("versionId", "v1")], [("response-content-type", "text/plain")], [("x-foo", "a b")], [("é", "1")]])
+        extra = rng.choice([[], [("versionId", "v1")], [("response-content-type", "text/plain")], [("x-foo", "a b")], [("é", "1")],
+                            [("p", "1"), ("p", "2")], [("x-id", "GetObject"), ("p", "v"), ("p", "v")]])     # a repeated name is signed once per occurrence
         headers = [("host", "s3.example.com")] + rng.choice([[], [], [("x-amz-meta-a", "1")], [("content-type", "text/plain")]])
         # placements of the signing time relative to now; window = [t - 900, t + expires]
         for place in ["inside", "inside-skewed-future", "before-window", "expired", "just-valid", "long"]:
@@ -95,6 +96,9 @@ def run(ctx):
         mut("path", path=path + "x")
         mut("add-param", q + [("added", "1")])
         if extra:
+            # another occurrence of a signed parameter, in front of it or behind it
+            mut("repeat-param-before", [(extra[-1][0], "smuggled")] + q)
+            mut("repeat-param-after", q + [(extra[-1][0], "smuggled")])
             mut("change-param", [(k, v + "x") if k == extra[0][0] else (k, v) for k, v in q])
             mut("drop-param", [p for p in q if p[0] != extra[0][0]])
         mut("signed-header-value", headers=[(n, v + "x") if n == "host" else (n, v) for n, v in headers])
